@@ -154,6 +154,9 @@ func verifCollectSites(doc *T) *verifSites {
 	s.header(doc.Components.Headers["H"], seen)
 	s.header(doc.Components.Headers["HC"], seen)
 	s.servers = append(s.servers, doc.Servers...)
+	if l := doc.Components.Links["L"]; l != nil && l.Value != nil && l.Value.Server != nil {
+		s.servers = append(s.servers, l.Value.Server) // a link's own server
+	}
 	s.response(doc.Components.Responses["R"], seen)
 	if rb := doc.Components.RequestBodies["B"]; rb != nil && rb.Value != nil {
 		s.content(rb.Value.Content, seen)
